@@ -142,7 +142,7 @@ runs the check through `VERIF_REPO`, expects exit 1 and removes the copy.
 
 ### 7.5 Sensitivity: breaking changes seeded by independent sub-agents (`seeded/<name>/`)
 
-Seven rounds of twenty fresh sub-agents (one per property and round) were given only the
+Eight rounds of twenty fresh sub-agents and a ninth of twelve (one per property and round) were given only the
 property text and a scratch git worktree under /tmp - nothing from /verif; in the later
 rounds also the one-line summaries of the earlier rounds' changes with the instruction to find
 something of a different kind - and asked for up to two plausible changes that break the
@@ -152,7 +152,7 @@ all 752 baseline tests pass with the change) and are kept with `patch.diff`, `de
 `meta.json`. ''' + str(total - missed) + ''' were caught by the quick tier as it stood when they arrived; **''' + str(missed) + ''' were
 missed and led to the strengthenings listed below**, after which all ''' + str(total) + ''' are caught by the
 quick tier of their own property (`tools/mutants.py --seeded`). Names `Cxx_n` are round 1,
-`Cxx_bn` round 2, `Cxx_cn` round 3 (which also suggested kinds of change: cooperating sites, configuration constants, numeric edge values, argument types, duck-typed streams, shared state between objects, half-updated objects after an error), `Cxx_dn` round 4 (kinds suggested: data-dependent numeric paths such as overflow and non-finite values, sizes beyond an internal block length, optional header fields, file-name conventions, resource handling such as memory maps, interactions of three parameters). Four round-4 seeds (C09_d1, C10_d1, C17_d1, C17_d2) met a working tree that I had already strengthened on my own; the committed checks of that moment missed them and they are counted as misses. Seeds are also re-run at VERIF_SEED 2 and 3; two (C06_c2, C14_b1) were caught at seed 1 but not at seed 3, so the lowered-threshold configurations were made five times more frequent and more extreme (down to 1e-6) and signal lengths on the frame-count boundaries (whole and half multiples of the shift, +-1) are now generated on purpose. `Cxx_en` is round 5, whose brief asked the agent to list the phrases of the statement that no earlier change had touched and to break one of those (25 seeds, 11 first missed - the highest miss rate since round 1, so the steer worked). `Cxx_fn` is round 6 (28 seeds, 11 first missed): the brief asked for cooperating edits, reordered operations, 'equivalent' library calls that differ on ties / empty input, text handling, path forms, aliased results. `Cxx_gn` is round 7 (28 seeds, 10 first missed), whose single theme was the *range* of what a statement quantifies over: unusual but valid dtypes, axis positions, counts, rates, filter orders, file types.
+`Cxx_bn` round 2, `Cxx_cn` round 3 (which also suggested kinds of change: cooperating sites, configuration constants, numeric edge values, argument types, duck-typed streams, shared state between objects, half-updated objects after an error), `Cxx_dn` round 4 (kinds suggested: data-dependent numeric paths such as overflow and non-finite values, sizes beyond an internal block length, optional header fields, file-name conventions, resource handling such as memory maps, interactions of three parameters). Four round-4 seeds (C09_d1, C10_d1, C17_d1, C17_d2) met a working tree that I had already strengthened on my own; the committed checks of that moment missed them and they are counted as misses. Seeds are also re-run at VERIF_SEED 2 and 3; two (C06_c2, C14_b1) were caught at seed 1 but not at seed 3, so the lowered-threshold configurations were made five times more frequent and more extreme (down to 1e-6) and signal lengths on the frame-count boundaries (whole and half multiples of the shift, +-1) are now generated on purpose. `Cxx_en` is round 5, whose brief asked the agent to list the phrases of the statement that no earlier change had touched and to break one of those (25 seeds, 11 first missed - the highest miss rate since round 1, so the steer worked). `Cxx_fn` is round 6 (28 seeds, 11 first missed): the brief asked for cooperating edits, reordered operations, 'equivalent' library calls that differ on ties / empty input, text handling, path forms, aliased results. `Cxx_gn` is round 7 (28 seeds, 10 first missed), whose single theme was the *range* of what a statement quantifies over: unusual but valid dtypes, axis positions, counts, rates, filter orders, file types. `Cxx_hn` is round 8 (21 seeds, 14 first missed - the highest rate of all rounds), with two themes: a change that is right on the main route and wrong on an *alternative route* to the same behaviour (alias, mapping, half=True, in_place, scripted module, compressed stream), and *the third call* (right for every pair of operations, wrong for one order of three). `Cxx_in` is round 9 (12 agents, 12 seeds, 10 first missed): the brief described a harness that already varies everything in the lessons below and asked what it would still not look at.
 
 | seed | change | first quick run | strengthening |
 |------|--------|-----------------|---------------|
@@ -212,8 +212,44 @@ defects of the unmodified library** (F14c: the torch STFT module raised where co
 F19a: OctaveScaling computed 2 ** scale in the argument's integer type), both repaired by one-line `fix:` commits; a
 third observation - compute_full itself rejects most signals when kaldi_shift is combined with a shift above the
 length - is outside every statement's reach (C01 restricts itself to shift <= length, C02/C14 are judged without
-kaldi_shift there) and is recorded here only. (xxv) After a `fix:` commit the seeded patches are re-applied to the new
-tree; one (C19_1) touched the repaired line and was rebased (both versions are kept).
+kaldi_shift there) and is recorded here only; likewise a short-integration computer handed a 2-D array raises and
+stays `started` (the next compute_full is refused until finalize) - no statement speaks about arrays that are not signals,
+so the generators use integer samples (rejected cleanly) for "a rejected call, then a call". (xxv) After a `fix:` commit the seeded patches are re-applied to the new
+tree; two (C19_1, C14_b1) touched repaired lines and were rebased (both versions are kept).
+From round 8: (xxvi) **routes**: objects are also obtained by alias and from configuration mappings (C18, C20), responses
+through half=True (C05), files through a decompressing stream (C12), the tool's in-place pre-processing on a recording
+beyond one block (C09), a short-integration computer inside the resumable tool (C10); (xxvii) **orders of three**: an
+exhaustive clause `request_orders` in C06 and C07 runs every ordered triple of requests over two filters, two or three
+widths and the response methods on one bank object per class and compares the last answer with a fresh bank's
+(about 30 000 triples in a few seconds - generated warm-ups found such defects only at some seeds); the same idea as
+drawn histories elsewhere: load - load+accumulate - load (C16), save - wider save by another writer - save (C17), build -
+build a larger sibling - apply (C15), read with a lossy dtype - read (C11), rejected call - call (C03), small chunk -
+outsized chunk - rest (C01), assign parameters after use (C19). A harness lesson from this round: one check of a
+mutant sat for an hour under load (a 300-utterance case being shrunk), which `tools/mutants.py` now reports as TIMEOUT
+instead of dying; the quick tier of C10 starts all its process-bound clauses at once (29 s instead of 62 s) and no longer
+shrinks (a failing case is replayed as found).
+From round 9: (xxviii) STFT streaming results are judged **frame by frame** (a running sum over the whole signal loses a quiet
+passage after a loud one; the column-maximum tolerance of C01 could not see it); (xxix) objects are pickled / deep-copied
+before use, flags arrive as 0 / 1 / numpy booleans, public coefficients are assigned after a first use (C18), the same
+object filters the same shape along another axis first (C15); (xxx) inputs every generator would call pointless or absurd:
+8193 channels (one frame wider than the read size), dot-files named exactly '.npy', one archive shared by all utterances
+of a map, a suffix removed from the configurable soundfile set, statistics files memory-mapped through the documented
+keyword pass-through. Two seeds of earlier rounds that were caught only at some VERIF_SEED values got their killing case
+added to the replay corpus (corpus/C06/low_order_gammatone_many_periods.json, corpus/C16/constant_coefficient_raw_file.json).
+
+### 7.6 What the record above does and does not show
+
+Every round of independent seeding still produced changes the quick tier of that moment missed (10 of 12 in the last
+round): the miss rate did not fall, because every brief steered the agents away from what was already covered. What the
+numbers show is that the generators now cover every kind of trigger nine rounds of adversarial authors could think of, and
+that all ''' + str(total) + ''' filed changes are caught (at VERIF_SEED 1, 2 and 3 for the rounds filed before the last full
+regression); they do not show that the next plausible change will be caught. Generated-input search never establishes
+absence: the claim per property is the `level` recorded in MANIFEST.json (exploration / fault enumeration over the stated
+generators), with the exhaustive sub-spaces named in the evidence files as the only places where "for all" is literal.
+Known limits: C10 cannot inject a kill inside a write() system call; worker interleavings are perturbed, not enumerated;
+float tolerances are models of round-off stated per property; configurations the unmodified library itself rejects or
+mishandles outside any statement (kaldi_shift with a shift above the frame length, 2-D input to a short-integration
+computer, HDF5's saturating dtype conversion) are excluded from the generators and named in 7.2-7.5.
 '''
 p = os.path.join(H, "DESIGN.md")
 s = open(p).read()
